@@ -62,6 +62,7 @@ struct array {
     [[nodiscard]] constexpr auto operator[](size_type const pos) noexcept -> reference
     {
         if constexpr (Size == 0) {
+            TETL_PRECONDITION_SAFE(pos < Size);
             etl::unreachable();
         } else {
             TETL_PRECONDITION_SAFE(pos < Size);
@@ -73,6 +74,7 @@ struct array {
     [[nodiscard]] constexpr auto operator[](size_type const pos) const noexcept -> const_reference
     {
         if constexpr (Size == 0) {
+            TETL_PRECONDITION_SAFE(pos < Size);
             etl::unreachable();
         } else {
             TETL_PRECONDITION_SAFE(pos < Size);
